@@ -47,7 +47,7 @@ DECODER_PINS = [
     ("vyper.codegen_venom.abi.abi_decoder", "_decode_bytestring", "d2a4450c75754615"),
     ("vyper.codegen_venom.abi.abi_decoder", "_decode_dyn_array", "c26f1a926e72b714"),
     ("vyper.codegen_venom.abi.abi_decoder", "_decode_complex", "623666e8ff9c37da"),
-    ("vyper.builtins.functions", "ABIDecode.build_IR", "ca3dd261a7184ff3"),
+    ("vyper.builtins.functions", "ABIDecode.build_IR", "fa925b722d2d9b25"),
     ("vyper.codegen.external_call", "_unpack_returndata", "6274bc433758bd4f"),
 ]
 
